@@ -1,4 +1,5 @@
 import Ccp.Proofs.Diff
+import Ccp.Proofs.DiffCli
 /-!
 # C10 — the diff transforms the old config into the new one; the rollback is its mirror
 
@@ -92,6 +93,74 @@ theorem printed_commands (delta : Forest) (hN : ∀ p ∈ paths delta, ∀ t ∈
     linePaths [] ((render delta).filterMap normLine) = paths delta :=
   linePaths_render delta hN
 
+/-! ### the command line: `ccp diff [-m METHOD] [-s SYNTAX] FILE FILE` (model `Ccp.Model.DiffCli`) -/
+
+/-- **`ccp diff` prints the API result.**  With both files present (texts `a`, `b`) and an accepted syntax, the
+lines appended to `CliApplication.stdout` are those of `Diff(a, b, syntax).get_diff()` — with `-m diff` and without
+`-m` — resp. `.get_rollback()` with `-m rollback`; without `-s` the syntax is `ios`.  So every theorem above about
+`getDiff` / `getRollback` of the loaded pair is a theorem about what `ccp diff` prints. -/
+theorem cli_diff_is_api (fs : Str → Option Str) (f0 f1 a b syn : Str)
+    (h0 : fs f0 = some a) (h1 : fs f1 = some b) (hs : syntaxes.contains syn = true) :
+    cliDiff fs f0 f1 none (some syn) = ((init fs (.str a) (.str b) syn).map getDiff).mapError .diff ∧
+    cliDiff fs f0 f1 (some "diff".toList) (some syn) = ((init fs (.str a) (.str b) syn).map getDiff).mapError .diff ∧
+    cliDiff fs f0 f1 (some "rollback".toList) (some syn) = ((init fs (.str a) (.str b) syn).map getRollback).mapError .diff ∧
+    cliDiff fs f0 f1 none none = cliDiff fs f0 f1 (some "diff".toList) (some "ios".toList) := by
+  have hr : parseMethod (some "rollback".toList) = some .rollback := by decide
+  have hd : parseMethod (some "diff".toList) = some .diff := by decide
+  have hi : parseSyntax (some "ios".toList) = some "ios".toList := by decide
+  refine ⟨?_, ?_, ?_, ?_⟩
+  · simp only [cliDiff, parseMethod, parseSyntax, hs, if_true, h0, h1]
+    cases init fs (.str a) (.str b) syn <;> rfl
+  · simp only [cliDiff, hd, parseSyntax, hs, if_true, h0, h1]
+    cases init fs (.str a) (.str b) syn <;> rfl
+  · simp only [cliDiff, hr, parseSyntax, hs, if_true, h0, h1]
+    cases init fs (.str a) (.str b) syn <;> rfl
+  · unfold cliDiff
+    rw [hd, hi]
+    rfl
+
+/-- **Mirror on the command line.** `ccp diff -m rollback OLD NEW` prints what `ccp diff -m diff NEW OLD` prints (or
+fails in the same way), for every file system and every `-s`. -/
+theorem cli_rollback_mirror (fs : Str → Option Str) (f0 f1 : Str) (syn : Option Str) :
+    cliDiff fs f0 f1 (some "rollback".toList) syn = cliDiff fs f1 f0 (some "diff".toList) syn := by
+  have hr : parseMethod (some "rollback".toList) = some .rollback := by decide
+  have hd : parseMethod (some "diff".toList) = some .diff := by decide
+  simp only [cliDiff, hr, hd]
+  cases parseSyntax syn with
+  | none => rfl
+  | some s =>
+    cases h0 : fs f0 with
+    | none => cases h1 : fs f1 <;> rfl
+    | some a =>
+      cases h1 : fs f1 with
+      | none => rfl
+      | some b =>
+        simp only [init_str_swap fs a b s]
+        cases init fs (.str a) (.str b) s <;> rfl
+
+/-- a `-m` / `-s` value outside the argparse choices ends the process before any file is read; with accepted
+options a missing file is a FileNotFoundError -/
+theorem cli_rejects (fs : Str → Option Str) (f0 f1 : Str) (m s : Option Str) :
+    (parseMethod m = none ∨ parseSyntax s = none → cliDiff fs f0 f1 m s = .error .systemExit) ∧
+    (parseMethod m ≠ none → parseSyntax s ≠ none → (fs f0 = none ∨ fs f1 = none) →
+      cliDiff fs f0 f1 m s = .error .fileNotFound) := by
+  constructor
+  · intro h
+    unfold cliDiff
+    rcases h with h | h
+    · rw [h]
+    · rw [h]; cases parseMethod m <;> rfl
+  · intro hm hs hf
+    unfold cliDiff
+    cases hm' : parseMethod m with
+    | none => exact absurd hm' hm
+    | some mm =>
+      cases hs' : parseSyntax s with
+      | none => exact absurd hs' hs
+      | some ss =>
+        rcases hf with h | h
+        · simp only [h]
+        · simp only [h]; cases fs f0 <;> rfl
 /-! ### non-vacuity: concrete configurations meeting the hypotheses -/
 
 private def oldText : Str :=
@@ -138,5 +207,14 @@ example : ∃ (fs : Str → Option Str) (l : List Str) (p : Str),
     fs (join linesep l) = none ∧ fs p = some (join linesep l) ∧ (splitlines p).length = 1 ∧ l.length = 2 :=
   ⟨fun q => if q = "/tmp/a.cfg".toList then some "a\n b".toList else none,
    ["a".toList, " b".toList], "/tmp/a.cfg".toList, by decide +kernel, by decide +kernel, by decide +kernel, rfl⟩
+
+-- `cli_diff_is_api` / `cli_rollback_mirror`: two files, what `ccp diff -m rollback -s nxos f0 f1` prints
+private def fs2 : Str → Option Str := fun p =>
+  if p = "f0".toList then some "int Gi1\n mtu 1500\n".toList else if p = "f1".toList then some "int Gi1\n mtu 9000\n".toList else none
+example : (cliDiff fs2 "f0".toList "f1".toList (some "rollback".toList) (some "nxos".toList)).toOption
+    = some ["int Gi1".toList, "  no mtu 9000".toList, "  mtu 1500".toList] := by decide +kernel
+example : (match cliDiff fs2 "f0".toList "f1".toList (some "undo".toList) none with | .error .systemExit => true | _ => false) = true ∧
+    (match cliDiff fs2 "f0".toList "nowhere".toList none none with | .error .fileNotFound => true | _ => false) = true := by
+  decide +kernel
 
 end Ccp.C10
